@@ -163,8 +163,8 @@ def _deviations(kind, v):
     if kind == "FinishedPdu":
         flags = sum(1 for k in ("cc", "dc", "fs") if v[k] != 0)
         n -= max(0, flags - 1)  # the flag octet is one axis
-        if v.get("fault") is not None and (v["cc"], v["dc"], v["fs"]) == (4, 0, 0):
-            n -= 1
+        if v.get("fault") is not None and v["cc"] != 0 and (v["dc"], v["fs"]) == (0, 0):
+            n -= 1  # as for EOF: the error condition code (ANY of them) a fault location needs is not a deviation of its own
     return n
 
 
@@ -651,7 +651,7 @@ SIZE_CFGS = [{"crc": c, "large": lg, "idw": iw, "seqw": sw, "mode": 0, "segctrl"
 def size_values(tier):
     """file data lengths: every length 0..1100 (all values of the low length octet under high octets 0..4), and around
     every multiple of 256 of the data field length up to the largest PDU (window -40..+8, which contains every carry of
-    low octet + header length for all header lengths <= 28), for high octets 5..16 and 31, 32, 63, 64, 127, 128, 254, 255"""
+    low octet + header length for all header lengths <= 28), for high octets 5..16 and 31, 32, 63, 64, 127, 128, 254, 255 (run_sizes adds the 16 largest data field lengths 65520..65535)"""
     vals = set(range(0, 1101))
     highs = list(range(5, 17)) + [31, 32, 63, 64, 127, 128, 254, 255] + ([] if tier == "quick" else list(range(17, 31)))
     for h in highs:
@@ -672,6 +672,14 @@ def run_sizes(rec, item):
             continue
         recipe = {"cfg": dict(cfg), "params": {"offset": 0x01020304, "data": ["shaped", ln, i % 4], "md": None}}
         factory_case(rec, "FileDataPdu", recipe, holder_too=(i % 16 == 0))
+        n += 1
+    # the largest PDUs: data field lengths 65520..65535 (the last one is the largest value of the 16-bit field)
+    overhead = (8 if cfg["large"] else 4) + (2 if cfg["crc"] else 0)
+    for dlen in range(65520, 65536):
+        if dlen % item["parts"] != item["part"]:
+            continue
+        recipe = {"cfg": dict(cfg), "params": {"offset": 0x01020304, "data": ["shaped", dlen - overhead, dlen % 4], "md": None}}
+        factory_case(rec, "FileDataPdu", recipe, holder_too=(dlen == 65535))
         n += 1
     # directives whose data field can be long: Metadata (names of 0..255 octets each: data field lengths contiguous over
     # ~510 values) and NAK (0..140 segment requests)
